@@ -7,7 +7,9 @@ from props.strings import record_events, judge
 
 
 def assembled_texts(rnd, n):
-    fill = [" ", "\n", ". ", ", ", " (", ") ", "x", ":", "/", "1", "3.1", "CVSS:", "CVSS:3.", " see ", "score 7.5 ", "\t", "é", "="]
+    fill = [" ", "\n", ". ", ", ", " (", ") ", "x", ":", "/", "1", "3.1", "CVSS:", "CVSS:3.", " see ", "score 7.5 ", "\t", "é", "=",
+            # delimiters outside [A-Za-z:/] that a careless character class could take for letters
+            "\u212a", "\u017f", "\u0130", "\u0131", "\uff21", "\uff5a", "\u00df", "\u0391", "_", "-", "0", "9", "\x00", "\u200b"]
     out = []
     for _ in range(n):
         parts = []
@@ -52,6 +54,11 @@ def run(prop, tier, seed):
         for ver in "234":
             for v in corpus.extremal_vectors(rnd, ver):
                 ext += [v[3], "x " + v[3] + " y", "(" + v[3] + ")", v[3] + "\n" + v[3], v[3] + "x", "CVSS:" + v[3]]
+        # every special delimiter directly before and after valid vectors
+        for dl in ["\u212a", "\u017f", "\u0130", "\u0131", "\uff21", "\uff5a", "\u00df", "_", "-", "7", "\x00", "\u200b", "\u0661"]:
+            for ver in "23":
+                s_ = corpus.random_vector(rnd, ver)[3]
+                ext += [dl + s_, s_ + dl, "300" + dl + s_ + dl + "ok"]
         ext += [x for v in corpus.prefix_variants(rnd) for x in (v, "see " + v + ".")]
         texts = gen + ext + assembled_texts(rnd, 4000 if not big else 80000) + corpus.arbitrary_text(rnd, 1500 if not big else 20000)
         texts = list(dict.fromkeys(texts))
